@@ -270,6 +270,16 @@ struct NogcMapA {
     void probes(Ctx&) {}
 };
 
+// C18 for split lists: the traversal must follow split order = increasing bit-reversed hash, ties (equal hashes) in key order
+inline size_t rbo64(size_t x) { size_t r = 0; for (int i = 0; i < 64; i++) { r = (r << 1) | (x & 1); x >>= 1; } return r; }
+inline bool split_order_ok(const std::vector<long>& keys, std::string& why) {
+    for (size_t i = 1; i < keys.size(); i++) {
+        size_t a = rbo64(mkhash(keys[i - 1])), b = rbo64(mkhash(keys[i]));
+        if (a > b || (a == b && keys[i - 1] >= keys[i])) { char buf[160]; snprintf(buf, sizeof buf, "split list: quiescent traversal is not in split order: key %ld (hash %zx) is followed by key %ld (hash %zx)", keys[i - 1], mkhash(keys[i - 1]), keys[i], mkhash(keys[i])); why = buf; return false; }
+    }
+    return true;
+}
+
 // ---- program generation
 struct GenCfg { unsigned caps = CAPS_FULL; int max_threads_quick = 3, max_threads_thorough = 4, max_ops = 5, nkeys_hot = 3, nkeys_cold = 2, min_hazards = 8; int insert_forms = 3, erase_forms = 2; bool readers_may_start_late = true; int hash_modes = 0; };
 inline void smr_knobs(Rng& r, Program& p, int nthreads, int min_hazards) {
